@@ -1137,6 +1137,13 @@ class GrammarBuilder:
         if name.startswith('__'):
             self._grammar_error(is_term, 'Names starting with double-underscore are reserved (Error at {name})', name)
 
+        if override and is_term and exp is not None and self._definitions[name].tree is not None:
+            # Imported terminals that are composed from this one already hold its tree (terminal references
+            # are resolved when a module is loaded), so replace the content in place, like %extend does.
+            old_tree = self._definitions[name].tree
+            old_tree.data, old_tree.children = exp.data, exp.children
+            exp = old_tree
+
         self._definitions[name] = Definition(is_term, exp, params, self._check_options(is_term, options))
 
     def _extend(self, name, is_term, exp, params=(), options=None):
